@@ -205,13 +205,13 @@ Section S.
 
   Lemma ana_step_SCall : forall line eline g args lines isig inters loads R,
     ana_step H mx (SCall line eline g args) lines isig (inters, loads, R) =
-    call_g g (call_ctx H mx lines line eline isig inters loads) (callee_ctx_plain H mx g)
+    call_g g (call_ctx H mx lines line eline isig inters loads) (callee_ctx_plain H mx g (List.length args))
            (fun t R' => (inters ++ [t], loads, R')) R.
   Proof. reflexivity. Qed.
 
   Lemma ana_step_SRef : forall line g ex lines isig inters loads R,
     ana_step H mx (SRef line g ex) lines isig (inters, loads, R) =
-    call_g g (call_ctx H mx lines line line isig inters loads) (callee_ctx_plain H mx g)
+    call_g g (call_ctx H mx lines line line isig inters loads) (callee_ctx_plain H mx g 0)
            (fun t R' => (inters ++ [t], loads, R')) R.
   Proof. reflexivity. Qed.
 
@@ -325,8 +325,8 @@ Section S.
     call_ctx H mx lines line eline isig inters loads.
   Proof. intros. unfold call_ctx. rewrite fis_siglist_rename. reflexivity. Qed.
 
-  Lemma callee_ctx_plain_rename : forall r g, callee_ctx_plain H mx (rename_fn r g) = callee_ctx_plain H mx g.
-  Proof. intros r g. unfold callee_ctx_plain. rewrite fn_params_rename. reflexivity. Qed.
+  Lemma callee_ctx_plain_rename : forall r g n, callee_ctx_plain H mx (rename_fn r g) n = callee_ctx_plain H mx g n.
+  Proof. intros r g n. unfold callee_ctx_plain. rewrite fn_params_rename. reflexivity. Qed.
 
   Lemma call_g_rename : forall r g cr nr post post' R,
     (forall A R0, ana H mx (rename_fn r g) A R0 = map_ana r (ana H mx g A R0)) ->
@@ -498,8 +498,8 @@ Section S.
   (* ============================================================================================================== *)
   (* execution-only annotations (tag, raised exception, argument expressions, exec flag) are not read                *)
   (* ============================================================================================================== *)
-  Lemma callee_ctx_plain_strip : forall g, callee_ctx_plain H mx (strip_fn g) = callee_ctx_plain H mx g.
-  Proof. intros g. unfold callee_ctx_plain. rewrite fn_params_strip. reflexivity. Qed.
+  Lemma callee_ctx_plain_strip : forall g n, callee_ctx_plain H mx (strip_fn g) n = callee_ctx_plain H mx g n.
+  Proof. intros g n. unfold callee_ctx_plain. rewrite fn_params_strip. reflexivity. Qed.
 
   Lemma call_g_strip : forall g cr nr post R,
     (forall A R0, ana H mx (strip_fn g) A R0 = ana H mx g A R0) ->
@@ -584,8 +584,8 @@ Section S.
   Lemma ST_case_scall : forall line eline g, ST_fn g -> forall args, ST_step (SCall line eline g args).
   Proof.
     intros line eline g IHg args lines isig [[inters loads] R].
-    change (strip_step (SCall line eline g args)) with (SCall line eline (strip_fn g) []).
-    rewrite !ana_step_SCall. rewrite callee_ctx_plain_strip. apply call_g_strip. exact IHg.
+    change (strip_step (SCall line eline g args)) with (SCall line eline (strip_fn g) (map (fun _ => ELit VNone) args)).
+    rewrite !ana_step_SCall. rewrite map_length, callee_ctx_plain_strip. apply call_g_strip. exact IHg.
   Qed.
 
   Lemma ST_case_sref : forall line g, ST_fn g -> forall ex, ST_step (SRef line g ex).
